@@ -80,9 +80,12 @@ Definition cache_prog (locked : bool) (call : ccall) : list (mstep lru unit (cca
     end.
 
 (* ================= 2. TextFileSource ================= *)
-(* world = number of edits so far; contents w = parsed lines (system id, value) of the file after w edits;
-   stat version of the file after w edits = w (every edit changes the stat version) *)
-Inductive tcall := TGet (sys : nat) | TFind (v : nat).
+(* world = number of edits so far; contents w = parsed lines (system id, value) of the file after w edits,
+   bad w = the file does not parse in that state (get_data / find_system raise);
+   stat version of the file after w edits = w (every edit changes the stat version).
+   TGetAt / TFindAt wexp: the same calls issued by the final "post" thread, which must see the last
+   file state wexp: observing any other state yields a result no real call produces *)
+Inductive tcall := TGet (sys : nat) | TFind (v : nat) | TGetAt (wexp sys : nat) | TFindAt (wexp v : nat).
 Record tobj := { fver : option nat; parsed : list (nat * nat) }.
 Record tls := { tc : tcall; statv : option nat; tres : R }.
 
@@ -93,12 +96,18 @@ Definition find_sys (v : nat) (l : list (nat * nat)) : R :=
   end.
 Definition text_answer (c : tcall) (l : list (nat * nat)) : R :=
   match c with
-  | TGet sys => match alookup sys l with Some v => [1; v] | None => [0] end
-  | TFind v => find_sys v l
+  | TGet sys | TGetAt _ sys => match alookup sys l with Some v => [1; v] | None => [0] end
+  | TFind v | TFindAt _ v => find_sys v l
+  end.
+Definition at_world (c : tcall) (w : nat) (r : R) : R :=
+  match c with
+  | TGetAt wexp _ | TFindAt wexp _ => if Nat.eqb w wexp then r else [77]
+  | _ => r
   end.
 
 Section Text.
   Variable contents : nat -> list (nat * nat).
+  Variable bad : nat -> bool.
   Variable cache_enabled : bool.
   Definition t_stat (l : tls) (o : tobj) (w : nat) : tls * tobj :=
     ({| tc := tc l; statv := if cache_enabled then Some w else None; tres := tres l |}, o).
@@ -106,19 +115,22 @@ Section Text.
     match a, b with Some x, Some y => Nat.eqb x y | _, _ => false end.
   Definition t_read (l : tls) (o : tobj) (w : nat) : tls * tobj :=
     if cache_enabled && opt_nat_eqb (statv l) (fver o) then
-      ({| tc := tc l; statv := statv l; tres := text_answer (tc l) (parsed o) |}, o)
+      ({| tc := tc l; statv := statv l; tres := at_world (tc l) w (text_answer (tc l) (parsed o)) |}, o)
+    else if bad w then
+      (* the snapshot was cleared, the parse raised: nothing is remembered *)
+      ({| tc := tc l; statv := statv l; tres := at_world (tc l) w [8] |}, {| fver := None; parsed := [] |})
     else
       let o' := {| fver := statv l; parsed := contents w |} in
-      ({| tc := tc l; statv := statv l; tres := text_answer (tc l) (parsed o') |}, o').
+      ({| tc := tc l; statv := statv l; tres := at_world (tc l) w (text_answer (tc l) (parsed o')) |}, o').
   (* locked = false: get_data / find_system without `with self._lock`: the reload clears the snapshot
      first and fills it in a later step, the answer is looked up in a third one *)
   Definition t_clear (l : tls) (o : tobj) (w : nat) : tls * tobj :=
     if cache_enabled && opt_nat_eqb (statv l) (fver o) then (l, o) else (l, {| fver := None; parsed := [] |}).
   Definition t_fill (l : tls) (o : tobj) (w : nat) : tls * tobj :=
     if cache_enabled && opt_nat_eqb (statv l) (fver o) then (l, o)
-    else (l, {| fver := statv l; parsed := contents w |}).
+    else if bad w then (l, o) else (l, {| fver := statv l; parsed := contents w |}).
   Definition t_answer (l : tls) (o : tobj) (w : nat) : tls * tobj :=
-    ({| tc := tc l; statv := statv l; tres := text_answer (tc l) (parsed o) |}, o).
+    ({| tc := tc l; statv := statv l; tres := at_world (tc l) w (text_answer (tc l) (parsed o)) |}, o).
   Definition text_prog (locked : bool) (c : tcall) : list (mstep tobj nat tls) :=
     if locked then [Acq; Step t_stat; Step t_read; Rel]
     else [Step t_stat; Step t_clear; Step t_fill; Step t_answer].
